@@ -256,6 +256,17 @@ theorem items_of_reach_boundary (a : Arr Bucket) (n L : Nat) (h : List (Nat × B
     have hstep := aligned_lt_step L _ _ (cbs_dvd L now) (Nat.dvd_add hal (Dvd.intro_left _ rfl)) hcnt
     exact ⟨(not_deprecated_iff _ _ _).mpr ⟨by omega, by omega⟩, by omega⟩
 
+/-- the current bucket has been touched (created in it, or some call landed in it) ⇒ the last call is in it -/
+theorem touched_last (L now0 : Nat) (ops : List (Op Bucket)) (mono : MonoOps now0 ops) (now : Nat)
+    (hnow : ∀ o ∈ ops, o.time ≤ now) (hnow0 : now0 ≤ now)
+    (ht : cbs L now0 = cbs L now ∨ ∃ o ∈ ops, cbs L o.time = cbs L now) :
+    cbs L (lastTime now0 ops) = cbs L now := by
+  obtain ⟨h1, h2⟩ := le_lastTime now0 ops mono
+  have h3 := cbs_mono L (lastTime_le now0 now ops hnow0 hnow)
+  rcases ht with h | ⟨o, ho, h⟩
+  · have := cbs_mono L h1; omega
+  · have := cbs_mono L (h2 o ho); omega
+
 /-! ## what equality of the finite maps means for the lists the driver compares -/
 
 theorem itemAt_eq_zero_of_no_key (l : List (Nat × Bucket)) (sec : Nat) (hno : ∀ p ∈ l, p.1 ≠ sec) :
